@@ -74,8 +74,12 @@ func vfCheckAPI(em skel.Emitted) {
 		}
 		if strings.HasPrefix(rhs, "c.") {
 			nm := rhs[2:]
-			if !strings.HasPrefix(nm, "_") {
-				vfAssert(vfRuntimeHas("Container", nm), "every container method bound in the constructor exists in the pinned runtime")
+			own := false
+			for _, m := range em.Methods {
+				own = own || m.Name == nm
+			}
+			if !own {
+				vfAssert(vfRuntimeHas("Container", nm), "every container method bound in the constructor is declared in the file or exists in the pinned runtime")
 			}
 		} else if !strings.HasPrefix(rhs, "&") {
 			vfAssert(vfRuntimeHas("pkg", rhs[j+1:]), "every runtime function bound in the constructor exists in the pinned runtime")
@@ -114,10 +118,14 @@ func VF_C01_api() {
 		Services:   map[string]input.Service{"svc": svc, "dep": {Todo: &yes}},
 		Decorators: []input.Decorator{{Tag: "t", Decorator: "pkg.Decorate", Args: []any{"@dep"}}},
 	}
-	em, _, ok := vfGenerate(in, vfBool("stub"))
+	em, text, ok := vfGenerate(in, vfBool("stub"))
 	vfAssert(ok, "a valid configuration is accepted")
 	if ok {
 		vfCheckAPI(em)
+		// the whole file against go/types and the pinned runtime (user packages are fixtures)
+		for _, e := range vfTypeErrors(text, "") {
+			vfAssert(e == "", "the generated file type-checks against the pinned runtime: "+e)
+		}
 	}
 	vfReach("C01_api")
 }
@@ -140,14 +148,18 @@ func VF_C01_getters() {
 	}
 	vfAssert(em.ParseErr == "", "the generated text is syntactically valid Go")
 	var names []string
+	derived := 0
 	for _, m := range em.Methods {
-		if strings.HasPrefix(m.Name, "_") {
-			continue
-		}
+		// every method of the generated type, the template's own helpers included
 		names = append(names, m.Name)
 		vfAssert(vfInRe(m.Name, `\A[A-Za-z_][A-Za-z0-9_]*\z`), "every generated method name is a Go identifier")
 		vfAssert(!vfRuntimeHas("Container", m.Name) || false, "a generated method never shadows a method of the embedded container")
 		vfAssert(m.Name != "Container", "a generated method never has the name of the embedded field")
+		if m.Name == g || m.Name == g+"InContext" || m.Name == "Must"+g || m.Name == "Must"+g+"InContext" {
+			derived++
+		} else {
+			continue
+		}
 		// error path: `return nil, ...` is only valid when the result type admits nil
 		for _, r := range m.Returns {
 			if strings.HasPrefix(r, "nil,") {
@@ -157,14 +169,14 @@ func VF_C01_getters() {
 	}
 	for i := range names {
 		for j := i + 1; j < len(names); j++ {
-			vfAssert(names[i] != names[j], "generated method names are pairwise distinct")
+			vfAssert(names[i] != names[j], "generated method names are pairwise distinct (getters and the template's own helpers)")
 		}
 	}
 	want := 2
 	if must {
 		want = 4
 	}
-	vfAssert(len(names) == want, "G and GInContext, plus MustG and MustGInContext exactly when must_getter holds")
+	vfAssert(derived == want, "G and GInContext, plus MustG and MustGInContext exactly when must_getter holds")
 	vfReach("C01_getters")
 }
 
